@@ -59,6 +59,11 @@ cache_get_page(struct page_io *pio, read_page_fn *fn)
 	struct cache_entry *entry;
 	kdump_status ret;
 
+	/* There is no page cache as long as the page size is not known. */
+	if (!ctx->shared->cache)
+		return set_error(ctx, KDUMP_ERR_NODATA,
+				 "Page size is not known");
+
 	mutex_lock(&ctx->shared->cache_lock);
 	pio->chunk.nent = 1;
 	pio->chunk.embed_fces->cache = ctx->shared->cache;
